@@ -100,7 +100,7 @@ func vStreamPayload(chunks []pb.Chunk) []byte {
 // C14: the chunk stream produced by the streaming writer is accepted by the
 // stream validator under every segmentation, stays intact while the chunks are
 // queued, and decodes to the bytes written.
-//vcheck: reach=three-blocks,done workers=16
+//vcheck: props=C15 reach=three-blocks,done workers=16
 func VHarness_C14_ChunkStream() {
 	n := vLens[vChoose("n", len(vLens))]
 	orig := make([]byte, n)
